@@ -4,7 +4,7 @@ import random
 
 from engine import tlc, core, tracecheck
 
-ACTIONS = ["Miss", "CtrlAction", "Use", "PacketOutData", "MissViaTable", "SetConfig"]
+ACTIONS = ["Miss", "CtrlAction", "Use", "PacketOutData", "MissViaTable", "SetConfig", "Features"]
 ADAPTER = "harness.adapters_c18:Adapter"
 
 
@@ -143,6 +143,9 @@ def drive(arg):
     elif k < 0.9:
       a = "PacketOutData"
       args = dict(f=rnd.choice("ab"), p=rnd.randint(1, 3), act=rnd.choice(ACTS))
+    elif k < 0.95:
+      a = "Features"
+      args = dict(x=0)
     else:
       a = "SetConfig"
       args = dict(missLen=rnd.choice([0, 128, 65535]))
@@ -164,6 +167,10 @@ def drive(arg):
                                                          and isinstance(x["reason"], str) for x in obs["pins"])
       if not wf:
         obs = dict(emitted=[], pins=[])
+    elif a == "Features":
+      wf = wf and set(obs) == {"nbuf"} and isinstance(obs["nbuf"], int)
+      if not wf:
+        obs = dict(nbuf=-1)
     elif a != "SetConfig":
       wf = wf and set(obs) == {"emitted"}
       if not wf:
